@@ -1,9 +1,9 @@
 (** Dispatcher used by generated case files. *)
 From VG Require Export Corr.Base.
-From VG Require Import Corr.CorrTimeout Corr.CorrLeaf Corr.CorrRouter.
+From VG Require Import Corr.CorrTimeout Corr.CorrLeaf Corr.CorrRouter Corr.CorrReader.
 Open Scope Z_scope.
 
-Definition runners : list runner := [run_timeout; run_leaf; run_router].
+Definition runners : list runner := [run_timeout; run_leaf; run_router; run_reader].
 Definition monitors : list monitor_t := [mon_timeout; mon_leaf; mon_router].
 
 Definition run (suite : bytes) (i : V) : option V := first_some (map (fun r => r suite i) runners).
